@@ -30,6 +30,7 @@ struct Case {
   int pre = 0;                 // 0 nothing, 1 wait(INFINITE) before destroy (reaped state; needs a child that exits), 2 wait(0) before destroy
   int state = 0;               // handle state at destroy, see run_case
   bool via_cxx = false;        // through reproc::process's destructor
+  int cxx_release = 0;
   bool failed_first = false;   // a failing start (with a different deadline and policy) precedes the real one on the same handle
   int64_t epoch = 1000000;
 };
@@ -112,7 +113,9 @@ Case decode(Tape &t, long sweep)
   c.state = (int) t.weighted({ 12, 1, 2, 2, 1 });
   c.via_cxx = c.state == 0 && t.chance(1, 4);
   c.failed_first = c.state == 0 && !c.via_cxx && t.chance(1, 4);
-  // out-of-range actions in the stored policy: keep some
+  // how the C++ object lets go of its child: 0 destructor, 1 an empty process move-assigned over it,
+  // 2 another (never started) process move-assigned over it, 3 moved into a new object whose destructor runs
+  c.cxx_release = c.via_cxx ? (int) t.pick(4) : 0;
   return c;
 }
 
@@ -146,6 +149,7 @@ CaseResult run_case(Tape &t, long sweep)
   res.describe = J().raw("stop_policy", jarr(steps))
                      .kv("state", sn[c.state])
                      .kv("via_cxx_destructor", c.via_cxx)
+                     .kv("cxx_release", c.via_cxx ? (c.cxx_release == 0 ? "destructor" : c.cxx_release == 1 ? "empty process move-assigned over it" : c.cxx_release == 2 ? "another process move-assigned over it" : "moved into another object") : "-")
                      .kv("child_term", tm[c.term_mode])
                      .kv("term_delay", (long long) c.term_delay)
                      .kv("self_exit_after", c.self_exit_after == model::T_INF ? -1LL : (long long) c.self_exit_after)
@@ -327,7 +331,22 @@ CaseResult run_case(Tape &t, long sweep)
     w.call_begins(bound);
   }
   reproc_t *ret = nullptr;
-  if (c.via_cxx) cxx.reset();
+  if (c.via_cxx) {
+    switch (c.cxx_release) {
+      case 0: cxx.reset(); break;
+      case 1: *cxx = reproc::process(); break;                // the replaced handle must be destroyed like any other
+      case 2: {
+        reproc::process other;
+        *cxx = std::move(other);
+        break;
+      }
+      default: {
+        reproc::process taker(std::move(*cxx));
+        cxx.reset();  // the moved-from object owns nothing any more
+        break;        // `taker` is destroyed here
+      }
+    }
+  }
   else ret = reproc_destroy(ch.p);
   int64_t t1 = w.now;
   if (ret != nullptr) res.fail("destroy-returned-non-null", "reproc_destroy did not return NULL");
@@ -403,6 +422,7 @@ CaseResult run_case(Tape &t, long sweep)
   if (reaped) res.cls("destroy-on-reaped");
   if (all_noop) res.cls("default-policy");
   if (c.via_cxx) res.cls("via-cxx-destructor");
+  if (c.via_cxx && c.cxx_release) res.cls("via-cxx-move");
   if (interrupted_wait) res.cls("destroy-after-failed-wait");
   if (c.failed_first) res.cls("restarted-after-failed-start");
   if (c.deadline) res.cls("with-deadline");
@@ -418,6 +438,7 @@ CaseResult run_case(Tape &t, long sweep)
     }
   // a child the policy legitimately left behind is the harness's to reap
   if (vs_is_live(ch.pid)) hz::reap_quietly(ch.pid);
+  cxx.reset();  // (a process object that was assigned over still holds a fresh, never started handle)
   std::string lsig, lp = hz::ledger_problems(ch.fds_before, lsig);
   if (!lp.empty() && res.kind == CaseResult::PASS) res.fail(lsig, "after destroy: " + lp);
   return res;
